@@ -461,7 +461,7 @@ def writeFITSTable(filename, table):
         """
         if isinstance(val, bool):
             types = "L"
-        elif isinstance(val, (int, np.int64, np.int32)):
+        elif isinstance(val, (int, np.integer)):
             types = "J"
         elif isinstance(val, (float, np.float64, np.float32)):
             types = "E"
@@ -767,7 +767,7 @@ def writeDB(filename, catalog, meta=None):
             val = getattr(obj, n)
             if isinstance(val, bool):
                 types.append("BOOL")
-            elif isinstance(val, (int, np.int64, np.int32)):
+            elif isinstance(val, (int, np.integer)):
                 types.append("INT")
             # float32 is bugged and claims not to be a float
             elif isinstance(val, (float, np.float64, np.float32)):
